@@ -152,7 +152,10 @@ class SignerVersionInit(Contract):
         if is_int(iteration):
             return self._iteration == iteration
         return True
-    ensures = [accepted, integer_iteration_kept]
+    def only_integers_and_numerals_are_iterations(iteration):
+        """"a malformed ... iteration ... is refused": a boolean, null or any other type is not an iteration"""
+        return is_int(iteration) or is_str(iteration)
+    ensures = [accepted, integer_iteration_kept, only_integers_and_numerals_are_iterations]
 
     def refused(hash, iteration):
         """malformed hash or iteration: ValueError"""
